@@ -349,6 +349,29 @@ class Model:
                     return True
         return False
 
+    def retarget(self, pairs, convert):
+        """retarget_symbol_uses: every expression that names A now names B
+        (simultaneously for all pairs), attributes converted by
+        ``convert(token, attrs, a_is_internal, b_is_internal)``."""
+        mp = dict(pairs)
+        internal = lambda n: n not in self.proxy_syms
+        for _, u in self.units():
+            for t in u.toks:
+                if not t.sx:
+                    continue
+                new = []
+                for rel, size, ed in t.sx:
+                    if ed[0] == "const" and ed[1] in mp:
+                        b = mp[ed[1]]
+                        attrs = convert(t, tuple(ed[4]), internal(ed[1]), internal(b))
+                        ed = ("const", b, None, ed[3], tuple(sorted(attrs)))
+                    new.append((rel, size, ed))
+                t.sx = new
+                if t.target in mp and t.kind == "insn" and t.ikind in ("jmp", "jcc", "call"):
+                    t.target = mp[t.target]
+                elif t.target in mp:
+                    t.target = mp[t.target]
+
     def add_unit(self, sect, toks, create=True, name=None):
         if sect not in self.sections:
             self.sections[sect] = []
